@@ -1,5 +1,419 @@
 package main
 
+import (
+	"fmt"
+	"go/ast"
+	"go/token"
+	"path/filepath"
+	"strings"
+)
+
 // extractAll: the remaining items (added as the model grows).
 func extractAll(repo string, o *out) {
+	extractToxics(repo, o)
+}
+
+// emit writes  Definition name params : ty := body.  or, when body is empty, the last-known value.
+func (o *out) emit(name, params, ty, body, last, src, note string) {
+	if body != "" {
+		o.def(name, fmt.Sprintf("Definition %s %s: %s := %s.", name, params, ty, body), item{true, src, note})
+	} else {
+		if note == "" {
+			note = "not located in the source; last-known value emitted"
+		}
+		o.def(name, fmt.Sprintf("Definition %s %s: %s := %s.", name, params, ty, last), item{false, src, note})
+	}
+}
+
+// find returns the first node in n satisfying pred.
+func find(n ast.Node, pred func(ast.Node) bool) ast.Node {
+	var res ast.Node
+	if n == nil {
+		return nil
+	}
+	ast.Inspect(n, func(x ast.Node) bool {
+		if res != nil || x == nil {
+			return false
+		}
+		if pred(x) {
+			res = x
+			return false
+		}
+		return true
+	})
+	return res
+}
+
+func findAll(n ast.Node, pred func(ast.Node) bool) []ast.Node {
+	var res []ast.Node
+	if n == nil {
+		return nil
+	}
+	ast.Inspect(n, func(x ast.Node) bool {
+		if x != nil && pred(x) {
+			res = append(res, x)
+		}
+		return true
+	})
+	return res
+}
+
+func isCall(fset *token.FileSet, n ast.Node, fun string) (*ast.CallExpr, bool) {
+	c, ok := n.(*ast.CallExpr)
+	if ok && show(fset, c.Fun) == fun {
+		return c, true
+	}
+	return nil, false
+}
+
+func (p *pkg) tryCoq(x ast.Expr, vars map[string]string, wrap bool) (string, string) {
+	if x == nil {
+		return "", ""
+	}
+	e := &env{fset: p.fset, vars: vars, wrap: wrap}
+	s, err := e.toCoq(x)
+	if err != nil {
+		return "", err.Error()
+	}
+	return s, ""
+}
+
+// durationOf finds `name := EXPR` (or the argument of time.After) and translates EXPR over the given vars
+func (p *pkg) assignRHS(body ast.Node, lhs string) ast.Expr {
+	n := find(body, func(x ast.Node) bool {
+		a, ok := x.(*ast.AssignStmt)
+		return ok && len(a.Lhs) == 1 && len(a.Rhs) == 1 && show(p.fset, a.Lhs[0]) == lhs && (a.Tok == token.DEFINE || a.Tok == token.ASSIGN)
+	})
+	if n == nil {
+		return nil
+	}
+	return n.(*ast.AssignStmt).Rhs[0]
+}
+
+func extractToxics(repo string, o *out) {
+	p, err := loadPkg(filepath.Join(repo, "toxics"))
+	if err != nil {
+		p = &pkg{fset: token.NewFileSet(), files: map[string]*ast.File{}}
+	}
+	fs := p.fset
+
+	// ------------------------------------------------------------ slicer.chunk
+	{
+		var base, mid, guard, randn, adj, src string
+		if fd := p.method("SlicerToxic", "chunk"); fd != nil && fd.Body != nil && len(fd.Type.Params.List) >= 1 {
+			t := recvName(fd)
+			var names []string
+			for _, f := range fd.Type.Params.List {
+				for _, n := range f.Names {
+					names = append(names, n.Name)
+				}
+			}
+			if len(names) == 2 {
+				vars := map[string]string{names[0]: "start", names[1]: "end_", t + ".AverageSize": "avg", t + ".SizeVariation": "var"}
+				for _, st := range fd.Body.List {
+					switch s := st.(type) {
+					case *ast.IfStmt:
+						if base == "" {
+							// base case: returns []int{start, end}
+							if len(s.Body.List) == 1 {
+								if r, ok := s.Body.List[0].(*ast.ReturnStmt); ok && len(r.Results) == 1 &&
+									show(fs, r.Results[0]) == "[]int{"+names[0]+", "+names[1]+"}" {
+									base, _ = p.tryCoq(s.Cond, vars, false)
+									src = show(fs, s.Cond)
+								}
+							}
+						} else if mid != "" && guard == "" {
+							// if t.SizeVariation > 0 { mid += rand.Intn(ARG) - X }
+							if len(s.Body.List) == 1 {
+								if a, ok := s.Body.List[0].(*ast.AssignStmt); ok && a.Tok == token.ADD_ASSIGN && show(fs, a.Lhs[0]) == "mid" {
+									call := find(a.Rhs[0], func(x ast.Node) bool { _, ok := isCall(fs, x, "rand.Intn"); return ok })
+									if call != nil {
+										c := call.(*ast.CallExpr)
+										guard, _ = p.tryCoq(s.Cond, vars, false)
+										randn, _ = p.tryCoq(c.Args[0], vars, false)
+										v2 := map[string]string{show(fs, c): "r", "mid": "mid"}
+										for k, v := range vars {
+											v2[k] = v
+										}
+										rhs, _ := p.tryCoq(a.Rhs[0], v2, false)
+										if rhs != "" {
+											adj = "(mid + " + rhs + ")"
+										}
+									}
+								}
+							}
+						}
+					case *ast.AssignStmt:
+						if s.Tok == token.DEFINE && len(s.Lhs) == 1 && show(fs, s.Lhs[0]) == "mid" {
+							mid, _ = p.tryCoq(s.Rhs[0], vars, false)
+						}
+					}
+				}
+			}
+		}
+		// the recursive structure (left = chunk(start, mid); right = chunk(mid, end); append) is hand-modelled
+		o.emit("slicer_base", "(start end_ avg var : Z) ", "bool", base, "(((end_ - start) - avg) <=? var)", src, "")
+		o.emit("slicer_mid", "(start end_ : Z) ", "Z", mid, "(start + (godiv (end_ - start) 2))", "", "")
+		o.emit("slicer_rand_guard", "(var : Z) ", "bool", guard, "(0 <? var)", "", "")
+		o.emit("slicer_rand_n", "(var : Z) ", "Z", randn, "(var * 2)", "", "")
+		o.emit("slicer_mid_adj", "(mid r var : Z) ", "Z", adj, "(mid + (r - var))", "", "")
+	}
+	// slicer delay unit
+	{
+		body := ""
+		if fd := p.method("SlicerToxic", "Pipe"); fd != nil {
+			t := recvName(fd)
+			n := find(fd.Body, func(x ast.Node) bool { _, ok := isCall(fs, x, "time.After"); return ok })
+			if n != nil {
+				body, _ = p.tryCoq(n.(*ast.CallExpr).Args[0], map[string]string{t + ".Delay": "delay"}, true)
+			}
+		}
+		o.emit("slicer_delay_ns", "(delay : Z) ", "Z", body, "(wrap64 (delay * 1000))", "", "")
+	}
+
+	// ------------------------------------------------------------ latency.delay
+	{
+		var guard, randn, withJ, base string
+		if fd := p.method("LatencyToxic", "delay"); fd != nil && fd.Body != nil {
+			t := recvName(fd)
+			vars := map[string]string{t + ".Latency": "lat", t + ".Jitter": "jit"}
+			thenVars := map[string]string{}
+			for _, st := range fd.Body.List {
+				switch s := st.(type) {
+				case *ast.AssignStmt:
+					if s.Tok == token.DEFINE && len(s.Lhs) == 1 {
+						if v, _ := p.tryCoq(s.Rhs[0], vars, true); v != "" {
+							vars[show(fs, s.Lhs[0])] = v
+						}
+					}
+				case *ast.IfStmt:
+					if len(s.Body.List) == 1 {
+						if a, ok := s.Body.List[0].(*ast.AssignStmt); ok && a.Tok == token.ADD_ASSIGN {
+							call := find(a.Rhs[0], func(x ast.Node) bool { _, ok := isCall(fs, x, "rand.Int63n"); return ok })
+							if call != nil {
+								c := call.(*ast.CallExpr)
+								guard, _ = p.tryCoq(s.Cond, vars, true)
+								randn, _ = p.tryCoq(c.Args[0], vars, true)
+								for k, v := range vars {
+									thenVars[k] = v
+								}
+								thenVars[show(fs, c)] = "r"
+								rhs, _ := p.tryCoq(a.Rhs[0], thenVars, true)
+								lhs := show(fs, a.Lhs[0])
+								if rhs != "" && vars[lhs] != "" {
+									thenVars[lhs] = "(wrap64 (" + vars[lhs] + " + " + rhs + "))"
+								}
+							}
+						}
+					}
+				case *ast.ReturnStmt:
+					if len(s.Results) == 1 {
+						base, _ = p.tryCoq(s.Results[0], vars, true)
+						if len(thenVars) > 0 {
+							withJ, _ = p.tryCoq(s.Results[0], thenVars, true)
+						}
+					}
+				}
+			}
+		}
+		o.emit("latency_jitter_guard", "(jit : Z) ", "bool", guard, "(0 <? jit)", "", "")
+		o.emit("latency_rand_n", "(jit : Z) ", "Z", randn, "(wrap64 (jit * 2))", "", "")
+		o.emit("latency_delay_ns", "(lat r jit : Z) ", "Z", withJ, "(wrap64 ((wrap64 (lat + (wrap64 (r - jit)))) * 1000000))", "", "")
+		o.emit("latency_base_ns", "(lat : Z) ", "Z", base, "(wrap64 (lat * 1000000))", "", "")
+		// buffer size
+		bs := ""
+		if fd := p.method("LatencyToxic", "GetBufferSize"); fd != nil && fd.Body != nil && len(fd.Body.List) == 1 {
+			if r, ok := fd.Body.List[0].(*ast.ReturnStmt); ok && len(r.Results) == 1 {
+				if v, ok := constInt(fs, r.Results[0]); ok {
+					bs = coqZ(v)
+				}
+			}
+		}
+		o.emit("latency_buffer_size", "", "Z", bs, "1024", "", "")
+	}
+
+	// ------------------------------------------------------------ bandwidth.Pipe
+	{
+		var add, split, inst, instBytes, flush string
+		if fd := p.method("BandwidthToxic", "Pipe"); fd != nil && fd.Body != nil {
+			t := recvName(fd)
+			vars := map[string]string{t + ".Rate": "rate", "len(p.Data)": "len", "sleep": "acc"}
+			// if t.Rate <= 0 { sleep = 0 } else { sleep += E }
+			n := find(fd.Body, func(x ast.Node) bool {
+				s, ok := x.(*ast.IfStmt)
+				if !ok || s.Else == nil || len(s.Body.List) != 1 {
+					return false
+				}
+				a, ok := s.Body.List[0].(*ast.AssignStmt)
+				return ok && show(fs, a.Lhs[0]) == "sleep"
+			})
+			if n != nil {
+				s := n.(*ast.IfStmt)
+				cond, _ := p.tryCoq(s.Cond, vars, true)
+				th, _ := p.tryCoq(s.Body.List[0].(*ast.AssignStmt).Rhs[0], vars, true)
+				if eb, ok := s.Else.(*ast.BlockStmt); ok && len(eb.List) == 1 {
+					if a, ok := eb.List[0].(*ast.AssignStmt); ok && a.Tok == token.ADD_ASSIGN && show(fs, a.Lhs[0]) == "sleep" {
+						el, _ := p.tryCoq(a.Rhs[0], vars, true)
+						if cond != "" && th != "" && el != "" {
+							add = "if " + cond + " then " + th + " else (wrap64 (acc + " + el + "))"
+						}
+					}
+				}
+			}
+			// for int64(len(p.Data)) > t.Rate*100 { select { case <-time.After(X): ... p.Data[:E] ... sleep -= X
+			if fn := find(fd.Body, func(x ast.Node) bool {
+				f, ok := x.(*ast.ForStmt)
+				return ok && f.Cond != nil
+			}); fn != nil {
+				f := fn.(*ast.ForStmt)
+				split, _ = p.tryCoq(f.Cond, vars, true)
+				if c := find(f.Body, func(x ast.Node) bool { _, ok := isCall(fs, x, "time.After"); return ok }); c != nil {
+					if v, ok := constInt(fs, c.(*ast.CallExpr).Args[0]); ok {
+						inst = coqZ(v)
+					}
+				}
+				if sl := find(f.Body, func(x ast.Node) bool {
+					s, ok := x.(*ast.SliceExpr)
+					return ok && s.Low == nil && s.High != nil
+				}); sl != nil {
+					instBytes, _ = p.tryCoq(sl.(*ast.SliceExpr).High, vars, true)
+				}
+				// consistency: the amount subtracted from sleep per instalment must be the timer length
+				if sub := find(f.Body, func(x ast.Node) bool {
+					a, ok := x.(*ast.AssignStmt)
+					return ok && a.Tok == token.SUB_ASSIGN && show(fs, a.Lhs[0]) == "sleep"
+				}); sub != nil {
+					if v, ok := constInt(fs, sub.(*ast.AssignStmt).Rhs[0]); !ok || coqZ(v) != inst {
+						inst = "" // shapes differ: fall back to correspondence for this item
+					}
+				}
+			}
+			if c := find(fd.Body, func(x ast.Node) bool {
+				ce, ok := x.(*ast.CallExpr)
+				return ok && strings.HasSuffix(show(fs, ce.Fun), ".WriteOutput")
+			}); c != nil {
+				if v, ok := constInt(fs, c.(*ast.CallExpr).Args[1]); ok {
+					flush = coqZ(v)
+				}
+			}
+		}
+		o.emit("bw_sleep_add", "(acc len rate : Z) ", "Z", add, "if (rate <=? 0) then 0 else (wrap64 (acc + (godiv (wrap64 (len * 1000000)) rate)))", "", "")
+		o.emit("bw_split_test", "(len rate : Z) ", "bool", split, "((wrap64 (rate * 100)) <? len)", "", "")
+		o.emit("bw_instalment_ns", "", "Z", inst, "100000000", "", "")
+		o.emit("bw_instalment_bytes", "(rate : Z) ", "Z", instBytes, "(wrap64 (rate * 100))", "", "")
+		o.emit("flush_timeout_ns", "", "Z", flush, "5000000000", "", "")
+	}
+
+	// ------------------------------------------------------------ limit_data.Pipe
+	{
+		var rem, closeT string
+		if fd := p.method("LimitDataToxic", "Pipe"); fd != nil && fd.Body != nil {
+			t := recvName(fd)
+			vars := map[string]string{t + ".Bytes": "nbytes", "state.bytesTransmitted": "counter", "bytesRemaining": "rem"}
+			if r := p.assignRHS(fd.Body, "bytesRemaining"); r != nil {
+				rem, _ = p.tryCoq(r, vars, true)
+			}
+			// the if whose body closes the stub and returns, testing bytesRemaining
+			n := find(fd.Body, func(x ast.Node) bool {
+				s, ok := x.(*ast.IfStmt)
+				if !ok || !strings.Contains(show(fs, s.Cond), "bytesRemaining") || len(s.Body.List) != 2 {
+					return false
+				}
+				return strings.Contains(show(fs, s.Body.List[0]), ".Close()")
+			})
+			if n != nil {
+				closeT, _ = p.tryCoq(n.(*ast.IfStmt).Cond, vars, true)
+			}
+		}
+		o.emit("limit_remaining", "(nbytes counter : Z) ", "Z", rem, "(wrap64 (nbytes - counter))", "", "")
+		o.emit("limit_close_test", "(rem : Z) ", "bool", closeT, "(rem <=? 0)", "", "")
+	}
+
+	// ------------------------------------------------------------ timeout / slow_close / reset_peer
+	{
+		var tns, pos string
+		rearm := ""
+		if fd := p.method("TimeoutToxic", "Pipe"); fd != nil && fd.Body != nil {
+			t := recvName(fd)
+			vars := map[string]string{t + ".Timeout": "t"}
+			if r := p.assignRHS(fd.Body, "timeout"); r != nil {
+				tns, _ = p.tryCoq(r, vars, true)
+			}
+			if n := find(fd.Body, func(x ast.Node) bool {
+				s, ok := x.(*ast.IfStmt)
+				return ok && strings.Contains(show(fs, s.Cond), "timeout")
+			}); n != nil && tns != "" {
+				pos, _ = p.tryCoq(n.(*ast.IfStmt).Cond, map[string]string{"timeout": "(timeout_ns t)"}, true)
+			}
+			// is the timer created inside a loop (re-armed by every chunk) or once before it?
+			inLoop, outLoop := false, false
+			for _, c := range findAll(fd.Body, func(x ast.Node) bool {
+				ce, ok := x.(*ast.CallExpr)
+				if !ok {
+					return false
+				}
+				f := show(fs, ce.Fun)
+				return f == "time.After" || f == "time.NewTimer"
+			}) {
+				in := false
+				for _, f := range findAll(fd.Body, func(x ast.Node) bool { _, ok := x.(*ast.ForStmt); return ok }) {
+					if f.Pos() <= c.Pos() && c.End() <= f.End() {
+						in = true
+					}
+				}
+				if in {
+					inLoop = true
+				} else {
+					outLoop = true
+				}
+			}
+			if inLoop != outLoop {
+				rearm = boolS(inLoop)
+			}
+		}
+		o.emit("timeout_ns", "(t : Z) ", "Z", tns, "(wrap64 (t * 1000000))", "", "")
+		o.emit("timeout_positive", "(t : Z) ", "bool", pos, "(0 <? (timeout_ns t))", "", "")
+		o.emit("timeout_rearms", "", "bool", rearm, "false", "", "")
+
+		sc := ""
+		if fd := p.method("SlowCloseToxic", "Pipe"); fd != nil && fd.Body != nil {
+			if r := p.assignRHS(fd.Body, "delay"); r != nil {
+				sc, _ = p.tryCoq(r, map[string]string{recvName(fd) + ".Delay": "d"}, true)
+			}
+		}
+		o.emit("slow_close_ns", "(d : Z) ", "Z", sc, "(wrap64 (d * 1000000))", "", "")
+		rp := ""
+		if fd := p.method("ResetToxic", "Pipe"); fd != nil && fd.Body != nil {
+			if r := p.assignRHS(fd.Body, "timeout"); r != nil {
+				rp, _ = p.tryCoq(r, map[string]string{recvName(fd) + ".Timeout": "t"}, true)
+			}
+		}
+		o.emit("reset_peer_ns", "(t : Z) ", "Z", rp, "(wrap64 (t * 1000000))", "", "")
+	}
+
+	// ------------------------------------------------------------ toxic.go: Run's toxicity test
+	{
+		body := ""
+		if fd := p.method("ToxicStub", "Run"); fd != nil && fd.Body != nil {
+			if n := find(fd.Body, func(x ast.Node) bool {
+				s, ok := x.(*ast.IfStmt)
+				return ok && strings.Contains(show(fs, s.Cond), "Toxicity")
+			}); n != nil {
+				s := n.(*ast.IfStmt)
+				// which comparison decides "run the toxic" (then-branch calls toxic.Pipe)
+				if b, ok := s.Cond.(*ast.BinaryExpr); ok && strings.Contains(show(fs, s.Body), ".Pipe(") && !strings.Contains(show(fs, s.Body), "NoopToxic") {
+					l, r := show(fs, b.X), show(fs, b.Y)
+					draw := "randomToxicity"
+					switch {
+					case l == draw && strings.HasSuffix(r, ".Toxicity"):
+						body = map[token.Token]string{token.LSS: "TLt", token.LEQ: "TLe"}[b.Op]
+					case r == draw && strings.HasSuffix(l, ".Toxicity"):
+						body = map[token.Token]string{token.GTR: "TLt", token.GEQ: "TLe"}[b.Op]
+					}
+				}
+			}
+		}
+		o.def("toxicity_cmp_t", "Inductive toxicity_cmp_t := TLt | TLe.", item{true, "", "type of the comparison `draw ? toxicity`"})
+		o.emit("toxicity_cmp", "", "toxicity_cmp_t", body, "TLt", "", "")
+	}
 }
